@@ -10,7 +10,9 @@ RULE = ("readers R in 1..3 (real threads running the real SharedDictDataset.__ge
         "programs of <= 2 accesses over indices {0,1} (forced to collide) with an optional clear at any position of any reader, "
         "payload types int / (bytes,int) / tensor / dict / list, post-cache transform none / pure / in-place; every schedule at "
         "shared-dict-operation granularity with preemption bound 0,1,2,... (unbounded where the count allows); sequential "
-        "histories: all single-reader operation sequences of length <= 4 over {get0, get1, clear}; states = distinct final "
+        "histories (no concurrency, readers take turns): all sequences of (reader, op) with op in {get0, get1, clear} of length <= 4 "
+        "for 1 and 2 readers and <= 3 for 3 readers, with exact load accounting over all readers; readers are copies of ONE cache "
+        "object (fork picture: private attributes duplicated, manager dicts shared); states = distinct final "
         "(cache content, load counters) states, transitions = scheduled shared-dict operations; SchedDict is bound to the real "
         "multiprocessing Manager dict by replaying all operation sequences of depth <= 3 against both")
 
@@ -100,51 +102,113 @@ class Base:
         return payload(self.kind, i)
 
 
-def make_readers(n, kind, tkind, shared):
-    """n reader copies (own wrapped dataset, own load counter) sharing one dict - the picture of forked DataLoader workers."""
+CURRENT = {"sched": None, "dicts": []}
+
+
+class FakeManager:
+    """Stands in for multiprocessing.Manager(): every .dict() is a fresh SchedDict bound to the running scheduler."""
+
+    def __init__(self, *a, **k):
+        pass
+
+    def dict(self, *a, **k):
+        d = SchedDict()
+        d.sched = CURRENT["sched"]
+        if a or k:
+            for key, v in dict(*a, **k).items():
+                d._d[key] = __import__("pickle").dumps(v)
+        CURRENT["dicts"].append(d)
+        return d
+
+    def start(self, *a, **k):
+        pass
+
+    def shutdown(self):
+        pass
+
+    def __enter__(self):
+        return self
+
+    def __exit__(self, *a):
+        return False
+
+
+class patched:
+    """Manager is replaced for the whole execution (construction, accesses, clears), wherever the library looks it up."""
+
+    def __init__(self, sched):
+        self.sched = sched
+
+    def __enter__(self):
+        import multiprocessing
+        import kappadata.caching.shared_dict_dataset as mod
+        self.saved = (mod.__dict__.get("Manager"), multiprocessing.Manager)
+        if "Manager" in mod.__dict__:
+            mod.Manager = FakeManager
+        multiprocessing.Manager = FakeManager
+        CURRENT["sched"] = self.sched
+        CURRENT["dicts"] = []
+        # a manager object the library may have memoised at module level belongs to an earlier execution
+        for k, v in list(mod.__dict__.items()):
+            if isinstance(v, FakeManager):
+                mod.__dict__[k] = None
+        return self
+
+    def __exit__(self, *a):
+        import multiprocessing
+        import kappadata.caching.shared_dict_dataset as mod
+        if self.saved[0] is not None:
+            mod.Manager = self.saved[0]
+        multiprocessing.Manager = self.saved[1]
+        CURRENT["sched"] = None
+        return False
+
+
+def make_readers(n, kind, tkind):
+    """One cache object is built, then copied once per reader: the picture of forked DataLoader workers. Everything a process
+    owns privately (the wrapped dataset and its load counter, attributes of the cache object) is duplicated by the copy;
+    manager dicts are proxies, so the copies still refer to the same dict. Call inside `patched`."""
+    import copy
     import kappadata.caching.shared_dict_dataset as mod
-
-    class FakeManager:
-        def dict(self):
-            return shared
-
-    saved = mod.Manager
-    mod.Manager = FakeManager
+    master = mod.SharedDictDataset(Base(kind), transform=None)
     readers = []
-    try:
-        for _ in range(n):
-            counter = [0]
-            r = mod.SharedDictDataset(Base(kind), transform=make_transform(tkind, counter))
-            r._counter = counter
-            readers.append(r)
-    finally:
-        mod.Manager = saved
-    if any(r.shared_dict is not shared for r in readers):
-        raise RuntimeError("harness: the cache does not use the injected dict")
+    for _ in range(n):
+        r = copy.deepcopy(master)
+        counter = [0]
+        r.transform = make_transform(tkind, counter)
+        r._counter = counter
+        readers.append(r)
     return readers
 
 
+def shared_snapshot():
+    return tuple(tuple(sorted(d.snapshot().keys())) for d in CURRENT["dicts"])
+
+
 def run_schedule(programs, kind, tkind, chooser, bound):
-    shared = SchedDict()
     sched = Scheduler(chooser, bound)
-    shared.sched = sched
-    readers = make_readers(len(programs), kind, tkind, shared)
     results = [[] for _ in programs]
+    with patched(sched):
+        readers = make_readers(len(programs), kind, tkind)
 
-    def body(r, prog, out):
-        def fn():
-            for op in prog:
-                if op == "clear":
-                    r.dispose()
-                    out.append(("clear", None, None))
-                else:
-                    try:
-                        out.append(("get", op, r[op]))
-                    except Exception as e:
-                        out.append(("exc", op, e))
-        return fn
+        def body(r, prog, out):
+            def fn():
+                for op in prog:
+                    if op == "clear":
+                        try:
+                            r.dispose()
+                            out.append(("clear", None, None))
+                        except Exception as e:
+                            out.append(("exc", "clear", e))
+                    else:
+                        try:
+                            out.append(("get", op, r[op]))
+                        except Exception as e:
+                            out.append(("exc", op, e))
+            return fn
 
-    trace = sched.run([body(r, pr, out) for r, pr, out in zip(readers, programs, results)])
+        trace = sched.run([body(r, pr, out) for r, pr, out in zip(readers, programs, results)])
+        shared = shared_snapshot()
     return results, readers, shared, sched, trace
 
 
@@ -169,31 +233,39 @@ def check_results(programs, kind, tkind, results, readers, sched):
     return None, None
 
 
-def sequential_check(ops, kind, tkind):
-    """One reader, no concurrency: loads between clears <= 1 per sample, first access after a clear loads again."""
-    shared = SchedDict()
-    readers = make_readers(1, kind, tkind, shared)
-    r = readers[0]
-    cached = set()
-    for k, op in enumerate(ops):
-        before = len(r.dataset.loads)
-        if op == "clear":
-            r.dispose()
-            cached = set()
-            continue
-        try:
-            v = r[op]
-        except Exception as e:
-            return f"access_raised:{type(e).__name__}", f"ops {ops} step {k}: {e!r}"
-        if not same(v, apply_expected(tkind, payload(kind, op))):
-            return "value_differs_from_wrapped_dataset", f"ops {ops} step {k}: {v!r}"
-        loaded = r.dataset.loads[before:]
-        if op in cached and loaded:
-            return "cached_sample_loaded_again", f"ops {ops} step {k}: sample {op} was loaded again without a clear in between"
-        if op not in cached and loaded != [op]:
-            return "uncached_sample_not_loaded_exactly_once", f"ops {ops} step {k}: loads {loaded}"
-        cached.add(op)
-    return None, tuple(r.dataset.loads)
+def sequential_check(ops, kind, tkind, R=1):
+    """No concurrency: operations (reader, op) of R readers sharing the cache take turns. Between two clears every sample is
+    loaded at most once - by whichever reader asks first - and the first access after a clear (by any reader) loads again."""
+    ops = [o if isinstance(o, tuple) else (0, o) for o in ops]
+    with patched(None):
+        readers = make_readers(R, kind, tkind)
+        cached = set()
+        for k, (who, op) in enumerate(ops):
+            r = readers[who]
+            before = [len(x.dataset.loads) for x in readers]
+            if op == "clear":
+                try:
+                    r.dispose()
+                except Exception as e:
+                    return f"clear_raised:{type(e).__name__}", f"ops {ops} step {k}: {e!r}"
+                cached = set()
+                continue
+            try:
+                v = r[op]
+            except Exception as e:
+                return f"access_raised:{type(e).__name__}", f"ops {ops} step {k}: {e!r}"
+            if not same(v, apply_expected(tkind, payload(kind, op))):
+                return "value_differs_from_wrapped_dataset", f"ops {ops} step {k}: {v!r}"
+            loaded = r.dataset.loads[before[who]:]
+            if any(len(x.dataset.loads) != b for i, (x, b) in enumerate(zip(readers, before)) if i != who):
+                return "other_reader_loaded", f"ops {ops} step {k}"
+            if op in cached and loaded:
+                return "cached_sample_loaded_again", (f"ops {ops} step {k}: sample {op} was loaded again by reader {who} without a "
+                                                      f"clear in between")
+            if op not in cached and loaded != [op]:
+                return "uncached_sample_not_loaded_exactly_once", f"ops {ops} step {k}: reader {who} loads {loaded}"
+            cached.add(op)
+        return None, tuple(tuple(x.dataset.loads) for x in readers)
 
 
 def programs_for(R, tier):
@@ -239,7 +311,7 @@ def task(args):
                     p.violation(f"C19:{k}|clear={'yes' if any('clear' in x for x in progs) else 'no'}|readers={'1' if R == 1 else 'many'}",
                                 case, f"programs {progs} payload={kind} transform={tkind} schedule {[t for t, _ in trace]}: {msg}")
                 else:
-                    final = (tuple(sorted(shared.snapshot().keys())), tuple(tuple(r.dataset.loads) for r in readers))
+                    final = (shared, tuple(tuple(r.dataset.loads) for r in readers))
                     p.state((progs, kind, final))
                     p.observe((progs, kind, tkind, final))
             if capped:
@@ -254,17 +326,23 @@ def task(args):
 def seq_task(args):
     kind, tkind = args
     p = Partial()
-    for L in (1, 2, 3, 4):
-        for ops in itertools.product((0, 1, "clear"), repeat=L):
-            p.evaluations += 1
-            p.traces += 1
-            k, info = sequential_check(ops, kind, tkind)
-            if k:
-                p.violation(f"C19:sequential:{k}", dict(sequential=True, ops=list(ops), payload=kind, transform=tkind),
-                            f"payload={kind} transform={tkind}: {info}")
-            else:
-                p.state(("seq", kind, ops, info))
-                p.observe(("seq", kind, tkind, ops))
+    for R, maxlen in ((1, 4), (2, 4), (3, 3)):
+        alphabet = [(who, op) for who in range(R) for op in (0, 1, "clear")]
+        for L in range(1, maxlen + 1):
+            for ops in itertools.product(alphabet, repeat=L):
+                if R > 1 and len({w for w, _ in ops}) < 2:
+                    continue  # only one reader acts: already covered with fewer readers
+                p.evaluations += 1
+                p.traces += 1
+                p.transitions += L
+                k, info = sequential_check(ops, kind, tkind, R)
+                if k:
+                    p.violation(f"C19:sequential:{k}|readers={'1' if R == 1 else 'many'}",
+                                dict(sequential=True, ops=[list(o) for o in ops], readers=R, payload=kind, transform=tkind),
+                                f"payload={kind} transform={tkind} readers={R}: {info}")
+                else:
+                    p.state(("seq", kind, R, ops, info))
+                    p.observe(("seq", kind, tkind, R, ops))
     return p
 
 
@@ -325,7 +403,7 @@ def run(run):
     run.exhaustive = capped == 0
     run.extra.update(bounds=dict(readers="1..3", accesses_per_reader="<=2 (+ one clear)", indices=[0, 1],
                                  preemption_bounds="0,1,2,unbounded (R<=2); 0,1[,2] (R=3)", payloads=list(PAYLOADS),
-                                 transforms=list(TRANSFORMS), sequential_history_length="<=4"),
+                                 transforms=list(TRANSFORMS), sequential_history_length="<=4 (1-2 readers), <=3 (3 readers)"),
                      scheddict_conformance_sequences=run.counters.get("conformance_sequences", 0))
     run.assumptions += [
         "atomicity model: each Manager-dict proxy call is one atomic step; everything else in a reader is process-private",
@@ -336,8 +414,9 @@ def run(run):
 
 def replay(case):
     if case.get("sequential"):
-        ops = tuple(o if o == "clear" else int(o) for o in case["ops"])
-        k, info = sequential_check(ops, case["payload"], case["transform"])
+        ops = tuple((int(o[0]), o[1] if o[1] == "clear" else int(o[1])) if isinstance(o, list) else (0, o if o == "clear" else int(o))
+                    for o in case["ops"])
+        k, info = sequential_check(ops, case["payload"], case["transform"], int(case.get("readers", 1)))
         return None if k is None else f"{k}: {info}"
     progs = tuple(tuple(o if o == "clear" else int(o) for o in pr) for pr in case["programs"])
     res = run_schedule(progs, case["payload"], case["transform"], Chooser(tuple(case["schedule"])), case.get("bound"))
